@@ -343,10 +343,7 @@ impl World for ListenWorld {
         None
     }
     fn on_watchdog(&self, desc: &str) -> Option<(String, String)> {
-        if self.spec.mode == Mode::Independent {
-            return Some((self.sig("thread-blocked-outside-its-own-io"), format!("a server thread is blocked in something other than its own connection's I/O or the job queue: {}; events {:?}", desc, self.events)));
-        }
-        None
+        Some((self.sig("thread-blocked-outside-its-own-io"), format!("a server thread is blocked in something other than its own connection's I/O or the job queue: {}; events {:?}", desc, self.events)))
     }
     fn abstract_state(&self, st: &St) -> String {
         let th: Vec<String> = st.threads.iter().map(|t| format!("{}{}", t.pending.as_ref().map(|o| o.label()).unwrap_or_default(), t.exited)).collect();
